@@ -144,7 +144,7 @@ func (u User) AuthorizeAction(action Action) error {
 		for {
 			if p, ok := u.privileges[resource]; ok {
 				// Found matching resource
-				authorized := p&action.Privilege != 0 || p == AllPrivileges
+				authorized := p&(action.Privilege|AllPrivileges) != 0
 				if authorized {
 					return nil
 				} else {
